@@ -179,6 +179,9 @@ type clientOp struct {
 	ret     *ev.Rec
 	node    nodeKey
 	inc     int
+	// last log index and term of the node if it was leader when the
+	// operation was submitted
+	leaderLast, leaderTerm uint64
 }
 
 type xferOp struct {
@@ -439,11 +442,25 @@ func (a *Analyzer) Feed(r *ev.Rec) {
 	case "snapmeta":
 		a.onSnapMeta(n, r)
 	case "client-call":
-		a.ops[r.OpID] = &clientOp{rec: r, callSeq: r.Q, node: nodeKey{r.Cid, r.Nid}, inc: r.Inc}
+		op := &clientOp{rec: r, callSeq: r.Q, node: nodeKey{r.Cid, r.Nid}, inc: r.Inc}
+		if n != nil && n.hasSt && n.st.State == "L" && n.inc == r.Inc {
+			// what this leader has accepted so far
+			op.leaderLast, op.leaderTerm = n.last, n.st.Term
+		}
+		a.ops[r.OpID] = op
 		a.opOrder = append(a.opOrder, r.OpID)
 	case "client-ret":
 		if op := a.ops[r.OpID]; op != nil {
 			op.ret, op.retSeq = r, r.Q
+			// C07: a barrier (or read) answered by a leader comes after
+			// everything that leader had accepted before it - on its own state
+			// machine, which is where the answer is produced
+			if (op.rec.Op == "barrier" || op.rec.Op == "read") && r.Kind == "ok" && op.leaderLast > 0 && n != nil && n.inc == op.inc {
+				a.stat("leader-barriers-and-reads-checked-against-applied-index")
+				if n.appliedIdx < op.leaderLast && n.st.Term == op.leaderTerm {
+					a.find("C07", "answered-before-accepted-updates-applied", "", r.Q, "%s answered by leader %s while its state machine has applied up to %d: when the request was submitted the leader's log already ended at %d (entries it had accepted before)", op.rec.Op, n.key, n.appliedIdx, op.leaderLast)
+				}
+			}
 		}
 	case "admin-call":
 		if (r.Op == "changeconfig" || r.Op == "bootstrap") && n != nil && r.Cfg != nil {
@@ -775,6 +792,33 @@ func (a *Analyzer) onOpen(n *nodeState, r *ev.Rec) {
 				a.find("C12", "membership-after-restart-not-label", "", r.Q, "%s restarts with membership %s but its snapshot %d is labelled %s", n.key, cfgString(r.Cfg), st.Snap, cfgString(lab.Cfg))
 			}
 		}
+	}
+	// C12: the membership it falls back to when the newest entry is taken
+	// away again (the one it regards as committed) is the configuration entry
+	// before the newest one beyond the snapshot, else the snapshot's label
+	if r.Cfg != nil && r.CfgC != nil && !a.isWire(n.key.nid) {
+		var second uint64
+		for i := range r.Log {
+			if x := r.Log[i]; x.Typ == ev.TypConfig && x.Index > st.Snap && x.Index < m && x.Index > second {
+				second = x.Index
+			}
+		}
+		switch {
+		case m > 0 && second > 0:
+			if r.CfgC.Index != second {
+				a.find("C12", "fallback-membership-after-restart-wrong", "", r.Q, "%s restarts with configuration entries %d and %d beyond its snapshot %d, but the membership it would fall back to is %s", n.key, second, m, st.Snap, cfgString(r.CfgC))
+			}
+		case m > 0 && st.Snap > 0:
+			lab := n.snapLabels[st.Snap]
+			if r.CfgC.Index == 0 || r.CfgC.Index > st.Snap || (lab != nil && lab.Cfg != nil && lab.Cfg.Index != r.CfgC.Index) {
+				want := "its snapshot's label"
+				if lab != nil && lab.Cfg != nil {
+					want = cfgString(lab.Cfg)
+				}
+				a.find("C12", "fallback-membership-after-restart-wrong", "", r.Q, "%s restarts with one configuration entry (%d) beyond its snapshot %d: the membership it would fall back to is %s, want %s", n.key, m, st.Snap, cfgString(r.CfgC), want)
+			}
+		}
+		a.stat("fallback-memberships-checked-after-restart")
 	}
 	a.shape(fmt.Sprintf("open:%d", n.key.nid))
 }
